@@ -1847,7 +1847,27 @@ struct RunResult {
     uint64_t steps = 0;
 };
 
+RunResult run_plan_once(const Plan &p, Disabled &dis, Counters &cnt, Progress *prog);
+
+// Residue after every field was destroyed is a leak only if it comes back when the same
+// plan is executed again in the same process: storage that the library allocates ONCE per
+// process (a lazily built table, an immortal cache, a singleton) is reachable for the
+// process lifetime and is not what "leaked" means. The second pass decides.
 RunResult run_plan(const Plan &p, Disabled &dis, Counters &cnt, Progress *prog)
+{
+    RunResult rr = run_plan_once(p, dis, cnt, prog);
+    if (!rr.ok && (rr.v.key.rfind("leak:", 0) == 0 || rr.v.key.rfind("device-leak:", 0) == 0)) {
+        Counters scratch;
+        RunResult again = run_plan_once(p, dis, scratch, prog);
+        if (again.ok) {
+            cnt.inc("observed.one_time_allocation_kept_by_the_library");
+            return again;
+        }
+    }
+    return rr;
+}
+
+RunResult run_plan_once(const Plan &p, Disabled &dis, Counters &cnt, Progress *prog)
 {
     alloc::begin_run();
 #ifdef SIM_HAVE_CUDA_SHIM
